@@ -1890,7 +1890,7 @@ func c16Configs(thorough bool) []c16Config {
 		return []c16Config{
 			{Name: "full-k2", K: 2, Depth: 4, Split: 2, Short: true, Inject: true, InjectS: 2, Replay: true, Defects: true, LeafLight: true},
 			{Name: "validation-k2", K: 2, Depth: 4, Split: 2, Inject: true, InjectS: 2, Small: true, Validation: true},
-			{Name: "services-k2", K: 2, Depth: 3, Split: 2, Small: true, TwoServices: true},
+			{Name: "services-k2", K: 2, Depth: 4, Split: 2, Small: true, TwoServices: true},
 		}
 	}
 	return []c16Config{
